@@ -533,7 +533,13 @@ class Domain(object):
             if node.frame.parent is None:
                 state = state.with_extra(reraised_by=node.info['handler'][2])
             return [(None, self.on_stmt(node, state))]
-        if k in ('with-exit', 'yield', 'raise', 'subscript'):
+        if k in ('subscript', 'compare'):
+            outs = [('next', self.on_stmt(node, state))]
+            ex = self.partial_op_raises(node, state)
+            if ex is not None:
+                outs.append(('exc', ex.with_extra(exc_src=node.info.get('what', k))))
+            return outs
+        if k in ('with-exit', 'yield', 'raise'):
             return [(None, self.on_stmt(node, state))]
         if k == 'exit':
             return []
@@ -641,6 +647,11 @@ class Domain(object):
         return state
 
     def on_call_attempt(self, node, target, state):
+        return state
+
+    def partial_op_raises(self, node, state):
+        """state on the exceptional edge of a partial operation (subscript / ordering comparison), or None if the
+        operation cannot fail in this state"""
         return state
 
     def t_enter(self, node, state):
